@@ -191,6 +191,49 @@ func c07Fresh(w *ndWriter, C, B, K int, loaderUs int) int {
 	return n
 }
 
+// the overflow maximum is changed (SetBufferSizeMaximum) while a backlog is waiting: from then on the NEW maximum decides - with more
+// items waiting than it allows every Offer is refused until the backlog has drained below it, a raised maximum admits more at once -
+// nothing accepted is lost and the order is kept.  One goroutine, so the history is a plain sequence.
+func c07Reconfigure(w *ndWriter, C, B, newB int, loaderUs int) int {
+	rec := &recorder{}
+	q := fpgo.NewBufferedChannelQueue[int](C, B, 2).SetLoadFromPoolDuration(time.Duration(loaderUs) * time.Microsecond)
+	rec.ev(E{"ev": "reset", "thr": "-", "op": "-", "v": 0, "r": "-", "c": C, "b": B})
+	next := 0
+	offer := func(k int) {
+		for i := 0; i < k; i++ {
+			next++
+			rec.ev(E{"ev": "inv", "thr": "d", "op": "offer", "v": next, "r": "-"})
+			err := q.Offer(next)
+			rec.ev(E{"ev": "res", "thr": "d", "op": "offer", "v": next, "r": qerr(err)})
+		}
+	}
+	drain := func() {
+		deadline := time.Now().Add(3 * time.Second)
+		for q.Count() > 0 && time.Now().Before(deadline) {
+			rec.ev(E{"ev": "inv", "thr": "d", "op": "poll", "v": 0, "r": "-"})
+			v, err := q.Poll()
+			rec.ev(E{"ev": "res", "thr": "d", "op": "poll", "v": v, "r": qerr(err)})
+			if err != nil {
+				time.Sleep(20 * time.Microsecond)
+			}
+		}
+		rec.ev(E{"ev": "quiesce", "thr": "-", "op": "-", "v": q.Count(), "r": "-"})
+	}
+	offer(C + B + 1) // full, the last one refused
+	time.Sleep(time.Duration(2*loaderUs+200) * time.Microsecond)
+	q.SetBufferSizeMaximum(newB)
+	rec.ev(E{"ev": "setmax", "thr": "-", "op": "-", "v": 0, "r": "-", "b": newB})
+	offer(B + newB + 3)
+	drain()
+	rec.ev(E{"ev": "count", "thr": "-", "op": "-", "v": q.Count(), "r": "-"})
+	offer(C + newB + 2) // the new maximum holds for an empty queue too
+	rec.ev(E{"ev": "count", "thr": "-", "op": "-", "v": q.Count(), "r": "-"})
+	drain()
+	n := rec.flush(w)
+	q.Close()
+	return n
+}
+
 // the last item: one value is in the queue, K goroutines released together each call Poll once.  Exactly one gets it, the others
 // report empty - and ALL of them return (Poll never blocks).  A call that has not come back within the wait is a stuck line.
 func c07LastItem(w *ndWriter, plain bool, C, K int) int {
@@ -534,7 +577,11 @@ func c07Main(args []string) error {
 			}
 			c := cfgs[r%len(cfgs)]
 			P, Cn := 1+r%3, 1+(r/3)%3
-			if r%12 == 5 {
+			if r%12 == 7 {
+				m := r / 12
+				b := 2 + m%4
+				events += c07Reconfigure(w, 1+m%2, b, []int{b - 2, b + 3, 0, b - 1}[m%4], []int{1000, 1, 300}[m%3])
+			} else if r%12 == 5 {
 				m := r / 12
 				events += c07BlockedTakers(w, 1+m%2, 3+m%4, []int{20000, 1000, 5000}[m%3], m%4 != 3)
 			} else if r%9 == 2 {
